@@ -268,12 +268,16 @@ fn verdict(p: &Program) -> Sexp {
             // format the error every way a caller can (a panic here is a crash outcome of the case)
             use std::error::Error as _;
             let texts = [e.to_string(), format!("{e:#}"), format!("{e:?}"), format!("{:?}", e.source().map(|s| s.to_string()))];
-            assert!(texts[0].starts_with("In instruction "), "unexpected error text {}", texts[0]);
+            assert!(texts.iter().take(3).all(|t| !t.is_empty()), "empty error text");
+            // Only WHICH instruction is rejected is the property's business; the variant is recorded as a tag.
+            // Wildcard arm: a new `TypeError` variant must not break this harness.
+            #[allow(unreachable_patterns)]
             let (kind, instruction) = match &e {
                 TypeError::UndefinedMemoryReference { instruction, .. } => ("undefined_memory_reference", instruction),
                 TypeError::DataTypeMismatch { instruction, .. } => ("data_type_mismatch", instruction),
                 TypeError::RealValueRequired { instruction, .. } => ("real_value_required", instruction),
                 TypeError::OperatorOperandMismatch { instruction, .. } => ("operator_operand_mismatch", instruction),
+                _ => return tagged("err", vec![atom("other"), atom("unknown")]),
             };
             // which body instruction the error names: found by the Debug rendering (independent of quil-rs's
             // own `PartialEq`), cross-checked with `==`
